@@ -14,13 +14,20 @@ export GOFLAGS=-mod=mod GOPROXY=off GOSUMDB=off GOTOOLCHAIN=local GOWORK=off
   done
   echo "rc=$rc"
 ) > /tmp/regress.repo.out 2>&1 &
-(TMPDIR=/tmp/rg-seeds; mkdir -p $TMPDIR; export TMPDIR; tools/selftest.sh) > /tmp/regress.seeds.out 2>&1 &
+# seeds in 3 shards, refactorings in 3 shards (each shard has its own scratch worktree and scratch evidence dir)
+for i in 0 1 2; do
+  (TMPDIR=/tmp/rg-seeds$i; mkdir -p $TMPDIR; export TMPDIR; SELFTEST_SCR=/tmp/selftest-scr$i SHARD=$i/3 tools/selftest.sh) > /tmp/regress.seeds.$i.out 2>&1 &
+done
 (TMPDIR=/tmp/rg-rev; mkdir -p $TMPDIR; export TMPDIR; tools/selftest_reverts.sh) > /tmp/regress.reverts.out 2>&1 &
-(TMPDIR=/tmp/rg-ref; mkdir -p $TMPDIR; export TMPDIR; tools/tryrefactors.sh /verif/selftest/refactors/*.diff) > /tmp/regress.refactors.out 2>&1 &
+ls /verif/selftest/refactors/*.diff > /tmp/regress.reflist
+for i in 0 1 2; do
+  (TMPDIR=/tmp/rg-ref$i; mkdir -p $TMPDIR; export TMPDIR; REF_SCR=/tmp/ref-scr$i tools/tryrefactors.sh $(awk -v i=$i 'NR%3==i' /tmp/regress.reflist)) > /tmp/regress.refactors.$i.out 2>&1 &
+done
 wait
+cat /tmp/regress.seeds.[012].out > /tmp/regress.seeds.out; cat /tmp/regress.refactors.[012].out > /tmp/regress.refactors.out
 echo "== checks on /repo"; grep -v "violations=0" /tmp/regress.repo.out
 echo "== seeded changes (not detected)"; grep -v ": detected" /tmp/regress.seeds.out
 echo "== reverted fixes (not reported)"; grep -v "reported again" /tmp/regress.reverts.out
 echo "== refactorings (alarms)"; awk '/^== /{n=$2} /rule=/{print n": "$0} /DOES NOT APPLY/{print}' /tmp/regress.refactors.out | cut -c1-260
 echo "== counts: seeds $(grep -c ': detected' /tmp/regress.seeds.out)/$(ls -d /verif/seeded/*/ | wc -l) reverts $(grep -c 'reported again' /tmp/regress.reverts.out)/$(ls /verif/selftest/reverts/*.diff | wc -l) refactors-silent $(grep -c 'violations: 0' /tmp/regress.refactors.out)/$(ls /verif/selftest/refactors/*.diff | wc -l)"
-rm -rf /tmp/rg-seeds /tmp/rg-rev /tmp/rg-ref
+rm -rf /tmp/rg-seeds[012] /tmp/rg-rev /tmp/rg-ref[012]
